@@ -151,7 +151,7 @@ structure SInv (ss : SS) : Prop where
   hupCount : ss.core.nHup = ss.q.count .hup
   total : ss.core.nHup + ss.core.nTerm = ss.q.length
   regd : ∀ sg ∈ ss.q, sg ∈ notifySet ss.dg
-  notif : ss.notified = if (ss.core.everRunning = true ∧ ss.core.pc ≠ .done) then notifySet ss.dg else []
+  notif : ss.notified = if (ss.regDone = true ∧ ss.core.pc ≠ .done) then notifySet ss.dg else []
   noTermStop : ss.dg = true → ss.core.stop ≠ some .term
 
 theorem sinv_init (dg : Bool) : SInv (initS dg) := by
@@ -171,6 +171,11 @@ theorem fireS_core {ss ss' : SS} {l : SLabel} (h : fireS ss l = some ss') :
       · obtain ⟨c, hf, he⟩ := map_some' h; subst he; exact ⟨rfl, Or.inr ⟨_, hf⟩⟩
       · simp only [Option.some.injEq] at h; subst h; exact ⟨rfl, Or.inl rfl⟩
     · simp only [Option.some.injEq] at h; subst h; exact ⟨rfl, Or.inl rfl⟩
+  | register =>
+    simp only [fireS] at h
+    split at h
+    · simp only [Option.some.injEq] at h; subst h; exact ⟨rfl, Or.inl rfl⟩
+    · cases h
   | core l =>
     simp only [fireS] at h
     cases hg : sigGuard ss l with
@@ -179,37 +184,38 @@ theorem fireS_core {ss ss' : SS} {l : SLabel} (h : fireS ss l = some ss') :
       simp only [hg, Option.bind_some] at h
       obtain ⟨c, hf, he⟩ := map_some' h; subst he; exact ⟨rfl, Or.inr ⟨_, hf⟩⟩
 
-theorem sigGuard_other (ss : SS) {l : Label} (hl : l.isSig = false) : sigGuard ss l = some ss.q := by
+theorem sigGuard_other (ss : SS) {l : Label} {q' : List Sig} (hl : l.isSig = false) (hg : sigGuard ss l = some q') : q' = ss.q := by
   cases l with
   | post e => cases e <;> simp_all [Label.isSig, sigGuard]
-  | pick e => cases e <;> simp_all [Label.isSig, sigGuard]
-  | _ => rfl
+  | pick e =>
+    cases e <;> simp only [Label.isSig, Bool.true_eq_false] at hl <;> simp only [sigGuard] at hg <;> split at hg <;>
+      first | (exact (Option.some.inj hg).symm) | cases hg
+  | _ => exact (Option.some.inj hg).symm
 
-/-- the registrations follow Run's program point: `signalsChannel` is registered exactly from the end of the initial set-up
-until Run returns -/
-theorem notif_upd {ss : SS} {c : S} {l : Label} (hr : Inv ss.core.core) (hr' : Inv c.core) (hi : SInv ss)
+/-- a transition of the run loop changes the registrations only by Run's return (deferred `signal.Stop`) -/
+theorem notif_upd {ss : SS} {c : S} {l : Label} (hi : SInv ss)
     (hf : fire .fixed ss.core l = some c) :
-    regAfter ss c = if (c.everRunning = true ∧ c.pc ≠ .done) then notifySet ss.dg else [] := by
+    regAfter ss c = if (ss.regDone = true ∧ c.pc ≠ .done) then notifySet ss.dg else [] := by
   unfold regAfter
   by_cases hd : c.pc = .done
   · simp [hd, stopDeferred]
-  · obtain ⟨hsd, hor⟩ := pc_fire .fixed hf hd
-    have e1 : c.everRunning = !c.pc.initialPhase := ever_iff hr' hd
-    have e0 : ss.core.everRunning = !ss.core.pc.initialPhase := ever_iff hr hsd
+  · obtain ⟨hsd, _⟩ := pc_fire .fixed hf hd
     simp only [hd, if_false]
-    by_cases hc : ss.core.pc = .setup4 false ∧ c.pc = .select
-    · simp [hc, e1, Pc.initialPhase]
-    · simp only [hc, if_false]
-      rcases hor with ha | hb
-      · rw [hi.notif, e0, e1, ha]; simp [hd, hsd]
-      · exact absurd hb hc
+    rw [hi.notif]; simp [hd, hsd]
 
 theorem count_hup_cons (sg : Sig) (rest : List Sig) (h : sg ≠ .hup) : (sg :: rest).count .hup = rest.count .hup := by
   simp [List.count_cons, h]
 
-theorem sinv_fireS {ss ss' : SS} {l : SLabel} (hr : Inv ss.core.core) (hr' : Inv ss'.core.core) (hi : SInv ss)
+theorem sinv_fireS {ss ss' : SS} {l : SLabel} (hi : SInv ss)
     (h : fireS ss l = some ss') : SInv ss' := by
   cases l with
+  | register =>
+    simp only [fireS] at h
+    split at h
+    · rename_i hc
+      simp only [Option.some.injEq] at h; subst h
+      exact ⟨hi.cap, hi.hupCount, hi.total, hi.regd, by simp [hc.1], hi.noTermStop⟩
+    · cases h
   | os sg =>
     simp only [fireS] at h
     split at h
@@ -238,10 +244,9 @@ theorem sinv_fireS {ss ss' : SS} {l : SLabel} (hr : Inv ss.core.core) (hr' : Inv
           rcases hx with hx | hx
           · exact hi.regd x hx
           · subst hx; exact hmem
-        · have h1 := congrArg Core.everRunning hcore
-          have h2 := congrArg Core.pc hcore
-          simp only [S.core] at h1 h2
-          simp only [h1, h2]; exact hi.notif
+        · have h2 := congrArg Core.pc hcore
+          simp only [S.core] at h2
+          simp only [h2]; exact hi.notif
         · have h1 := congrArg Core.stop hcore
           simp only [S.core] at h1
           simp only [h1]; exact hi.noTermStop
@@ -257,10 +262,10 @@ theorem sinv_fireS {ss ss' : SS} {l : SLabel} (hr : Inv ss.core.core) (hr' : Inv
       simp only [hg, Option.bind_some] at h
       obtain ⟨c, hf, he⟩ := map_some' h
       subst he
-      have hnotif := notif_upd hr hr' hi hf
+      have hnotif := notif_upd hi hf
       by_cases hl : l.isSig = false
       · -- a label that does not touch the signal channel
-        have hq : q' = ss.q := by rw [sigGuard_other ss hl] at hg; exact (Option.some.inj hg).symm
+        have hq : q' = ss.q := sigGuard_other ss hl hg
         subst hq
         obtain ⟨n1, n2⟩ := sigs_fire .fixed hl hf
         refine ⟨hi.cap, ?_, ?_, hi.regd, hnotif, ?_⟩
@@ -277,7 +282,11 @@ theorem sinv_fireS {ss ss' : SS} {l : SLabel} (hr : Inv ss.core.core) (hr' : Inv
         | pick e =>
           cases e <;> simp only [Label.isSig, Bool.true_eq_false, not_false_eq_true, not_true_eq_false] at hl
           case hup =>
-            simp only [sigGuard] at hg
+            have hrd : ss.regDone = true := by
+              cases hr0 : ss.regDone
+              · simp [sigGuard, hr0] at hg
+              · rfl
+            simp only [sigGuard, hrd, if_true] at hg
             split at hg
             · rename_i rest hqq
               simp only [Option.some.injEq] at hg; subst hg
@@ -301,7 +310,11 @@ theorem sinv_fireS {ss ss' : SS} {l : SLabel} (hr : Inv ss.core.core) (hr' : Inv
               · cases hf
             · cases hg
           case term =>
-            simp only [sigGuard] at hg
+            have hrd : ss.regDone = true := by
+              cases hr0 : ss.regDone
+              · simp [sigGuard, hr0] at hg
+              · rfl
+            simp only [sigGuard, hrd, if_true] at hg
             split at hg
             · rename_i sg rest hqq
               split at hg
@@ -354,6 +367,6 @@ theorem reachS_inv (dg : Bool) (ls : List SLabel) : ∀ (ss ss' : SS), Reachable
             rw [runFrom_append]
             have : runFrom .fixed init ls0 = some ss.core := h0
             simp [this, runFrom, hl']⟩
-      exact ih s1 ss' hr1 (sinv_fireS (inv_reachable hr) (inv_reachable hr1) hi hf) (by rw [hdg, hd]) h
+      exact ih s1 ss' hr1 (sinv_fireS hi hf) (by rw [hdg, hd]) h
 
 end OtelVerif.C20
